@@ -609,6 +609,7 @@ package statedb
 //@   ensures @lock-released !GH_held[addr(ws.mu)]
 //@   ensures @error-is-context-error err != nil ==> closed(doneChan(ctx))
 //@   atcall Select@* requires @select-under-the-set-lock GH_held[addr(ws.mu)]
+//@   atcall WithTimeout@* requires @one-settle-window-starting-at-the-first-close len(closedChannels) == 1 && $0 == ctx && $1 == settleTime
 //@   loop 1 invariant @cases-are-members $n >= 0 && unboxptr(rvIface(cases[0].Chan)) == doneChan(ctx) && casesIndex == $n + 1 && len(cases) == 1 + len(ws.chans) && (forall i int :: 1 <= i && i < casesIndex ==> has(ws.chans, unboxptr(rvIface(cases[i].Chan))))
 //@   loop 2 invariant @settle (forall i int :: 1 <= i && i < len(cases) ==> has(ws.chans, unboxptr(rvIface(cases[i].Chan)))) && len(closedChannels) >= 1 && (forall i int :: 0 <= i && i < len(closedChannels) ==> has(ws.chans, closedChannels[i]) && closed(closedChannels[i]))
 //@ func (*WatchSet).Wait$1
